@@ -287,13 +287,15 @@ def _path(p):
     return tuple(int(c) if c.isdigit() else c for c in p)
 
 
-def lookup_raw(chm, p):
+def lookup_raw(chm, p, getitem=True):
     """(get_value() result, `in`, [] raised?) through public lookups only."""
     from genjax._src.core.generative.choice_map import ChoiceMapNoValueAtAddress
     path = _path(p)
     sub = chm(*path) if len(path) % 2 == 0 else chm.get_submap(path)
     v = sub.get_value()
     isin = path in chm
+    if not getitem:          # `[]` is exercised in concrete mode only (a third traversal per probe)
+        return v, isin, not isin
     try:
         chm[path]
         raised = False
@@ -320,7 +322,7 @@ def project(v):
     return int(x), 1
 
 
-def observe(chm, tab, want_sel=True):
+def observe(chm, tab, want_sel=True, getitem=True):
     """Observation of a real choice map over the non-skipped probes."""
     vals, ins, errs = [], [], []
     for p, exp in zip(PROBES, tab):
@@ -328,7 +330,7 @@ def observe(chm, tab, want_sel=True):
             vals.append(9)
             ins.append(9)
             continue
-        v, isin, raised = lookup_raw(chm, p)
+        v, isin, raised = lookup_raw(chm, p, getitem)
         val, st = project(v)
         vals.append(val)
         ins.append(1 if isin else 0)
@@ -394,7 +396,7 @@ def run_mode(case, mode, sp):
             if mode in ("concrete", "array"):
                 vals = runtime_values(slots, mode)
                 chm = build(t, Params(vals), sp)
-                obs = observe(chm, case["tab"])
+                obs = observe(chm, case["tab"], getitem=(mode == "concrete"))
             else:  # jit: every flag / index / value is an argument of the jitted function
                 vals = runtime_values(slots, "array")
                 side = {}
@@ -408,7 +410,7 @@ def run_mode(case, mode, sp):
                         if exp[0] == 9:
                             ins.append(9)
                             continue
-                        v, isin, raised = lookup_raw(chm, p)
+                        v, isin, raised = lookup_raw(chm, p, False)
                         outs.append(v)
                         ins.append(1 if isin else 0)
                         if bool(isin) != (v is not None) or raised != (not isin):
